@@ -282,7 +282,8 @@ def gen_spec(rng, cls, n):
     seq = rdna(rng, n, rng.choice([0.2, 0.5, 0.5, 0.8]))
     role = "constraint"
     if cls == "AvoidPattern":
-        p = rng.choice(["AA", "ACG", "GAATTC", "CGTCTC", "AN", "WS", "3xA", "4xC", "2x2mer", "3x1mer", "BsaI_site", "ANT", "GC"])
+        p = rng.choice(["AA", "ACG", "GAATTC", "CGTCTC", "AN", "WS", "3xA", "4xC", "2x2mer", "3x1mer", "BsaI_site", "ANT", "GC",
+                        "GAMTC", "GGYRCC", "GTMKAC", "RAT", "CNNR", "NGG", "SNS", "2xW"])
         loc = rng.choice([None, rloc(rng, n)])
         kw = {"pattern": p, "location": loc}
         if rng.random() < 0.25:
@@ -301,7 +302,7 @@ def gen_spec(rng, cls, n):
         seq = "".join(s)
         return ("AvoidPattern", tuple(sorted(kw.items()))), role, seq
     if cls == "EnforcePatternOccurence":
-        p = rng.choice(["AA", "ACG", "GAATTC", "CGTCTC", "ANT"])
+        p = rng.choice(["AA", "ACG", "GAATTC", "CGTCTC", "ANT", "GAMTC", "GGYRCC", "RAT"])
         kw = {"pattern": p, "occurences": rng.choice([0, 1, 1, 2, 3]), "location": rng.choice([None, rloc(rng, n)])}
         if rng.random() < 0.25:
             kw["strand"] = rng.choice(["both", 1, -1, 0])
@@ -393,7 +394,13 @@ def gen_spec(rng, cls, n):
                 kw["target_sequence"] = "".join(t)
                 role = "objective"
         elif mode < 0.6:
-            kw = {"indices": tuple(sorted(rng.sample(range(n), rng.randint(1, min(6, n)))))}
+            ix = sorted(rng.sample(range(n), rng.randint(1, min(6, n))))
+            if rng.random() < 0.4 and len(ix) > 2:
+                # not sorted (the smallest index stays first: a covering span of negative length raises)
+                rest = ix[1:]
+                rng.shuffle(rest)
+                ix = [ix[0]] + rest
+            kw = {"indices": tuple(ix)}
         else:
             budget = rng.choice(["max_edits", "max_edits", "max_edits_percent"])
             kw = {"location": rloc(rng, n, minlen=6), budget: rng.choice([1, 2, 2, 3] if budget == "max_edits" else [10, 20, 50])}
